@@ -61,8 +61,8 @@ func (e CE) op(op structs.ConfigEntryOp, c IdxClass, useIdx bool) world.Op {
 	}}
 }
 
-func (e CE) Upsert() world.Op                 { return e.op(structs.ConfigEntryUpsert, 0, false) }
-func (e CE) UpsertCAS(c IdxClass) world.Op    { return e.op(structs.ConfigEntryUpsertCAS, c, true) }
+func (e CE) Upsert() world.Op              { return e.op(structs.ConfigEntryUpsert, 0, false) }
+func (e CE) UpsertCAS(c IdxClass) world.Op { return e.op(structs.ConfigEntryUpsertCAS, c, true) }
 func (e CE) UpsertStatusCAS(c IdxClass) world.Op {
 	return e.op(structs.ConfigEntryUpsertWithStatusCAS, c, true)
 }
@@ -102,6 +102,8 @@ type ResolverOpt struct {
 	// FailoverTargets: targets-form failover; an entry "peer:<name>" is a cluster-peer target (same service name),
 	// anything else a local service
 	FailoverTargets []string
+	// FailoverBySubset: subset -> datacenters (one failover entry per subset)
+	FailoverBySubset map[string][]string
 }
 
 func Resolver(name string, o ResolverOpt) CE {
@@ -120,6 +122,14 @@ func Resolver(name string, o ResolverOpt) CE {
 	}
 	if len(o.FailoverTargets) > 0 {
 		lab += "|targets:" + strings.Join(o.FailoverTargets, ",")
+	}
+	if len(o.FailoverBySubset) > 0 {
+		var ks []string
+		for k, v := range o.FailoverBySubset {
+			ks = append(ks, k+">"+strings.Join(v, "+"))
+		}
+		sortStrings(ks)
+		lab += "|fo-by-subset:" + strings.Join(ks, ",")
 	}
 	return CE{Label: lab, Make: func() structs.ConfigEntry {
 		r := &structs.ServiceResolverConfigEntry{Kind: structs.ServiceResolver, Name: name, DefaultSubset: o.DefaultSubset}
@@ -145,6 +155,12 @@ func Resolver(name string, o ResolverOpt) CE {
 				}
 			}
 			r.Failover = map[string]structs.ServiceResolverFailover{"*": {Targets: ts}}
+		}
+		if len(o.FailoverBySubset) > 0 {
+			r.Failover = map[string]structs.ServiceResolverFailover{}
+			for k, v := range o.FailoverBySubset {
+				r.Failover[k] = structs.ServiceResolverFailover{Datacenters: append([]string{}, v...)}
+			}
 		}
 		return r
 	}}
@@ -247,10 +263,10 @@ func Mesh(transparentMeshOnly bool) CE {
 
 // IxnSrc is one source of a service-intentions entry.
 type IxnSrc struct {
-	Name   string
-	Peer   string
-	Action structs.IntentionAction // "" when Perms is used
-	Perms  []*structs.IntentionPermission
+	Name     string
+	Peer     string
+	Action   structs.IntentionAction // "" when Perms is used
+	Perms    []*structs.IntentionPermission
 	LegacyID string
 }
 
